@@ -31,6 +31,8 @@ def write_cfg(path, spec, consts, invariants=(), properties=(), view=None,
                 elif isinstance(v, str) and v.startswith("<-"):
                     f.write("  %s %s\n" % (k, v))
                     continue
+                elif isinstance(v, str) and v.startswith("{"):
+                    pass    # a set literal, written as is
                 elif isinstance(v, str):
                     v = '"%s"' % v
                 f.write("  %s = %s\n" % (k, v))
